@@ -17,13 +17,18 @@ var c14RaceOff int64
 
 // c14RaceReports returns the first new report whose stacks touch the server packages ("" if none).
 // A report that only involves harness code is returned prefixed with "HARNESS" so that it is not lost.
-func c14RaceReports() string {
+func c14RaceLogPath() string {
 	lp := ""
 	for _, kv := range strings.Fields(os.Getenv("GORACE")) {
 		if strings.HasPrefix(kv, "log_path=") {
 			lp = kv[len("log_path="):]
 		}
 	}
+	return lp
+}
+
+func c14RaceReports() string {
+	lp := c14RaceLogPath()
 	if lp == "" {
 		return ""
 	}
